@@ -761,6 +761,7 @@ func cancelledMerges(r *RunCtx) {
 	live0 := engineLive()
 	for _, in := range inst {
 		p := r.path("cancel")
+		prefill(r, p, int(ref.size), nil)
 		ch := make(chan struct{})
 		closed := false
 		doClose := func() {
